@@ -106,7 +106,9 @@ func findModuleAndIsExternal(y Definition, prefix string) (*Module, bool, error)
 	sub, found := m.imports[prefix]
 	if !found {
 		if m.belongsTo != nil && m.belongsTo.prefix == prefix {
-			return m.parent.(*Module), true, nil
+			if main, loadedByInclude := m.parent.(*Module); loadedByInclude {
+				return main, true, nil
+			}
 		}
 		return nil, true, errors.New("module not found " + prefix)
 	}
